@@ -351,15 +351,20 @@ struct Interp
 	int fuel = kFuel;
 	bool failed = false;
 	std::ostringstream log;
-	bool rewriteThenBlock = false, direct = false, queued = false, twoFilters = false, condFalse = false, adapterUsed = false, stoppedByPolicy = false;
+	bool rewriteThenBlock = false, direct = false, queued = false, twoFilters = false, condFalse = false, adapterUsed = false, stoppedByPolicy = false, firstListenerFromFilter = false;
 
 	Interp(const Program & p, Verdict & v_) : prog(p), v(v_) {}
+	// the rules of a dispatch with mixins also belong to the property of the entry point: direct dispatch (C04), queued (C05)
+	std::string dom() const {
+		if(frames.empty()) return "C12,C04,C05";
+		return frames.front().viaPtr ? "C12,C05" : "C12,C04";
+	}
 	void fail(const std::string & rule, const std::string & msg) {
 		if(failed) return;
 		failed = true;
 		std::string s = log.str();
 		if(s.size() > 600) s = "..." + s.substr(s.size() - 600);
-		v.fail(rule, "C12", msg + " | log: " + s);
+		v.fail(rule, dom(), msg + " | log: " + s);
 	}
 	static std::string show(const Args & a) { return "(" + std::to_string(a.a) + ", \"" + a.s + "\")"; }
 
@@ -497,6 +502,7 @@ struct Interp
 			lspec.push_back(sp);
 			lbody.push_back(&op.body);
 			if(op.c & 8) lists[key].prepend(id); else lists[key].append(id);
+			if(! frames.empty() && frames.back().inFilters && frames.back().key == key && lists[key].nodes.size() == 1) firstListenerFromFilter = true;
 			impl->addListener(implKey, id, kind, (op.c & 8) ? 1 : 0);
 			log << "(k" << key << ":l" << id << " kind" << kind << ")";
 			break;
@@ -599,6 +605,8 @@ Grammar makeGrammar()
 		{ F_APPENDFILTER, "appendFilter", 2, ArgSpec(0, 5), ArgSpec(0, 3), ArgSpec(0, 11), -1, 0 },
 		{ F_REMOVELISTENER, "removeListener", 2, ArgSpec(0, 20), ArgSpec(0, 0), ArgSpec(0, 0), -1, 0 },
 		{ F_DISPATCH, "dispatch", 1, ArgSpec(0, 1), ArgSpec(0, 400), ArgSpec(0, 3), -1, 0 },
+		// a filter (or listener) that registers a listener, possibly the first one of the event being dispatched
+		{ F_ADDLISTENER, "addListener", 3, ArgSpec(0, 1), ArgSpec(0, 3), ArgSpec(0, 15), -1, 0 },
 	};
 	g.levels.push_back(body);
 	return g;
@@ -606,7 +614,7 @@ Grammar makeGrammar()
 const Grammar & grammar(const std::string &) { static Grammar g = makeGrammar(); return g; }
 
 long g_caseCounter = 0;
-Verdict run(const Program & p, const std::string &)
+Verdict run(const Program & p, const std::string & prop)
 {
 	Verdict v;
 	v.trace.reserve(4096);
@@ -626,7 +634,10 @@ Verdict run(const Program & p, const std::string &)
 		cls(in.condFalse, "condition_false");
 		cls(in.adapterUsed, "argument_adapter_listener");
 		cls(in.stoppedByPolicy, "stopped_by_canContinueInvoking");
-		v.nontrivial = (in.twoFilters && in.rewriteThenBlock) || in.stoppedByPolicy || in.adapterUsed;
+		cls(in.firstListenerFromFilter, "filter_registered_the_first_listener_of_the_dispatched_event");
+		if(prop == "C04") v.nontrivial = in.twoFilters && in.direct;
+		else if(prop == "C05") v.nontrivial = in.twoFilters && in.queued;
+		else v.nontrivial = (in.twoFilters && in.rewriteThenBlock) || in.stoppedByPolicy || in.adapterUsed;
 		const std::string full = in.log.str();
 		v.trace.assign(full, 0, std::min<size_t>(full.size(), 4000));
 	}
